@@ -222,6 +222,47 @@ def _check_roundtrip(case):
     return None
 
 
+def _written_cases(tier, seed):
+    from replay import site
+    for k in ((0, 2) if tier == 'quick' else range(len(site.PRIVACY_SETS))):
+        yield {'written': 'B', 'privacy': k}
+    yield {'written': 'acme'}
+
+
+def _check_written(case):
+    """a real run: the objects.inv that was written, loaded by pydoctor's own reader, sends every entry to a file that was
+    written and to an anchor that exists in it ('the page and anchor where it is documented')"""
+    import os
+    from replay import site
+    if case['written'] == 'acme':
+        files = {'acme/__init__.py': '"""Root."""\nVERSION = 1\ndef setup(): pass\n', 'acme/acme.py': 'class acme:\n    def acme(self): pass\n    attr = 1\n',
+                 'acme/other.py': 'def f(): pass\nCONST = 2\nclass K:\n    cv = 1\n    def __init__(self):\n        self.iv = 2\n    @property\n    def p(self): pass\n'}
+        argv = []
+    else:
+        files, argv = site.PROJECT_B, [f'--privacy={r}' for r in site.PRIVACY_SETS[case['privacy']]]
+    rc, out, d = site.run_project(files, argv)
+    try:
+        if rc not in (0, 2, 3):
+            return {'observed': f'run ended with {rc}', 'required': 'a normal run', 'class': 'abort'}
+        idx = site.index_output(d + '/out')
+        inv, log = _inv()
+        data = open(os.path.join(d, 'out', 'objects.inv'), 'rb').read()
+        got = inv._parseInventory('', inv._getPayload('', data))
+        fails = []
+        if log.errors or not got:
+            fails.append({'observed': f'reading the written inventory: {len(got)} entries, errors {log.errors[:3]}', 'required': 'loads without problems', 'class': 'written-unreadable'})
+        import urllib.parse
+        for name, (base, loc) in sorted(got.items()):
+            page, _, frag = urllib.parse.unquote(loc).partition('#')
+            if page not in idx['files']:
+                fails.append({'observed': f'{name} -> {loc}: the file {page!r} was not written', 'required': 'the page where it is documented', 'class': 'written-page'})
+            elif frag and frag not in idx['pages'].get(page, {}).get('anchors', ()):
+                fails.append({'observed': f'{name} -> {loc}: {page} has no anchor {frag!r}', 'required': 'the anchor where it is documented', 'class': 'written-anchor'})
+        return fails or None
+    finally:
+        site.cleanup(d)
+
+
 def _axiom_cases(tier, seed):
     yield {'all': True}
 
@@ -246,6 +287,10 @@ HARNESS = {
         'bound': 'every object / the root list of fixture project A under 6 privacy rule lists'},
     'lemma.roundtrip': {'cases': _roundtrip_cases, 'check': _check_roundtrip,
         'bound': 'fixture project A under 6 privacy rule lists, end to end through writer and reader'},
+    f'{F}:SphinxInventoryWriter.generate': {'cases': _written_cases, 'check': _check_written,
+        'covers': ['pydoctor/themes/base/attribute-child.html', 'pydoctor/themes/base/function-child.html', 'pydoctor/model.py:Documentable.url'],
+        'bound': 'real runs of two projects (project B under 2 (8) privacy rule lists; a package with a same-named module and class): every entry of the '
+                 'written objects.inv followed into the written HTML'},
     'axioms': {'cases': _axiom_cases, 'check': _check_axioms,
         'bound': 'every axiom instantiated with all strings of length <= 3 over {a, space, 1, -, p, _}'},
 }
